@@ -176,7 +176,7 @@ func walkTree(api API, rootfh []byte, hint func(path string) []uint64) ([]DumpEn
 			w.add("walk: GETATTR %s status %d", path, ga.Stat)
 			return
 		}
-		e := DumpEnt{Path: path, Kind: int(ga.Ftype), FH: fh, Fileid: ga.Fileid, Atime: ga.Atime, Mtime: ga.Mtime}
+		e := DumpEnt{Path: path, Kind: int(ga.Ftype), FH: fh, Fileid: ga.Fileid, Atime: ga.Atime, Mtime: ga.Mtime, Attrs: ga.Attrs}
 		switch int(ga.Ftype) {
 		case KReg:
 			e.Size = ga.Size
